@@ -26,3 +26,15 @@ package system
 //@ site loop 3 backedge assert itercalls("make_coroutine") == 1 && itercalls("sched_add") == 1
 //@ site loop 3 backedge assert iterres("sched_add", 1) ==> itercalls("sqe_callback") == 0
 //@ site loop 3 backedge assert !iterres("sched_add", 1) ==> itercalls("sqe_callback") == 1
+
+// The coroutine scheduled for a request runs the request's coroutine function once and then enqueues
+// exactly one completion carrying that function's result or error under the request's id.
+//@ func (*System).AddOnRequest$1$1
+//@ props C12
+//@ nopanic C13
+//@ funcvalue ^constructor$ records constructor
+//@ requires [captured] s != nil && s.api != nil && req != nil && req.Tags != nil && req.Tags["id"] != ""
+//@ requires c != nil
+//@ ensures calls("constructor") == 1 && calls("api_enqueue_cqe") == 1
+//@ ensures callarg("api_enqueue_cqe", 0, 1) != nil && callarg("api_enqueue_cqe", 0, 1).Id == req.Tags["id"]
+//@ ensures callarg("api_enqueue_cqe", 0, 1).Completion == callres("constructor", 0, 0) && callarg("api_enqueue_cqe", 0, 1).Error == callres("constructor", 0, 1)
